@@ -83,6 +83,14 @@ def gen_inputs(ctx):
         root = parent(rng, k, depth=rng.choice([0, 1, 100, 255 - n]))
         out.append(("DerivePath", {"root": root, "path": [idx4(i) for i in path]},
                     ("path", n, kc, any(i >= 2 ** 31 for i in path), all(i >= 2 ** 31 for i in path))))
+    # the caller keeps only the derived node (PrvKeyNode.parse(xprv).ckd(i), a helper returning derive_path's result):
+    # whatever is printed for it afterwards must not depend on the parent object still being around
+    import copy
+    base = [x for x in out if x[0] in ("CkdPriv", "DerivePath") and "prf" not in x[1]]
+    for a, inp, key in rng.sample(base, min(len(base), 10 if q else 150)):
+        inp2 = copy.deepcopy(inp)
+        inp2["drop"] = True
+        out.append((a, inp2, ("parent-object-dropped", a) + tuple(key[-2:])))
     # master generation for several seed lengths
     for n in (16, 32, 64, 1, 0, 65, 128):
         for _ in range(1 if q else 5):
@@ -96,9 +104,9 @@ def describe(ev):
     if ev["act"] in ("CkdPriv", "CkdPub"):
         return "%s(k=%s.., depth=%d, i=%d%s)" % (ev["act"], bytes(i["par"].get("k", i["par"].get("K", [])))[:6].hex(),
                                                    i["par"]["depth"], int.from_bytes(bytes(i["i"]), "big"),
-                                                   ", chosen PRF" if i.get("prf") else "")
+                                                   (", chosen PRF" if i.get("prf") else "") + (", parent object dropped" if i.get("drop") else ""))
     if ev["act"] == "DerivePath":
-        return "derive_path(%s)" % [int.from_bytes(bytes(x), "big") for x in i["path"]]
+        return "derive_path(%s)%s" % ([int.from_bytes(bytes(x), "big") for x in i["path"]], " (root object dropped)" if i.get("drop") else "")
     return ev["act"]
 
 
